@@ -13,6 +13,12 @@ import RuxModel.Model.URLBuild
     serve <method> <path>            -> <status> <allow> <body>
     ckeys                            -> cache keys, most recent first
     reopt                            -> ok | reject          (WithOptions after the routes exist)
+    wopt <mask> <cap|-> <form>       -> ok | reject          one more WithOptions(...) call: mask bits 1 strict, 2 fallback,
+                                                             4 notAllowed, 8 caching are switched ON, cap (if given) is
+                                                             MaxNumCaches; legal only while no route exists. The options in
+                                                             force are the accumulated ones, the capacity the LAST one given.
+                                                             <form> (which option functions, in which order) is for the
+                                                             implementation side only.
 -/
 namespace Rux.Drv.RouteE
 open Rux.Drv
@@ -87,8 +93,9 @@ def routeStep (st : RouteSt) : List String → RouteSt × String
   | ["new", mask, cap, icpt] =>
     match mask.toNat?, cap.toNat?, Bytes.ofHex icpt with
     | some m, some c, some ic =>
+      -- the harness passes the capacity to rux only together with the caching switch (CachingWithNum)
       let o : Opts := { strict := bit m 1, fallback := bit m 2, notAllowed := bit m 4, caching := bit m 8,
-                        cap := c, intercept := Bytes.trimSpace ic }
+                        cap := if bit m 8 then c else 1000, intercept := Bytes.trimSpace ic }
       ({ rt := RouterM.new o, customNF := bit m 16, customNA := bit m 32, tainted := false, runeSens := false }, "ok")
     | _, _, _ => (st, "bad-op")
   | ["reg", id, ms, path, nilh] =>
@@ -106,6 +113,18 @@ def routeStep (st : RouteSt) : List String → RouteSt × String
       | .unsupported => ({ st with tainted := true }, "unsupported")
     | _, _, _ => (st, "bad-op")
   | ["reopt"] => (st, if st.tainted then "unsupported" else if st.rt.counter > 0 then "reject" else "ok")
+  | ["wopt", mask, cap, _form] =>
+    if st.tainted then (st, "unsupported") else
+    match mask.toNat?, (if cap = "-" then some none else cap.toNat?.map some) with
+    | some m, some c =>
+      if st.rt.counter > 0 then (st, "reject") else
+      let o := st.rt.opts
+      let o' : Opts := { o with strict := o.strict || bit m 1, fallback := o.fallback || bit m 2,
+                                notAllowed := o.notAllowed || bit m 4, caching := o.caching || bit m 8,
+                                cap := c.getD o.cap }
+      -- no route exists: the tables and the cache are empty; the cache is re-created with the capacity in force
+      ({ st with rt := RouterM.new o' }, "ok")
+    | _, _ => (st, "bad-op")
   | ["q", m, p] =>
     match Bytes.ofHex m, Bytes.ofHex p with
     | some m, some p =>
